@@ -53,6 +53,8 @@ def run(F, X, rep):
     # for a payment without stored state the time to wait is the configured timeout itself, so non-zero means entered
     import rules_lc as R
     C = R.Ctx.get(F, X)
+    import p_c19
+    p_c19.i_params_immutable(F, X, rep, "C12-P")
     if R.need_lc(C, rep, "C12-L"):
         R.t1_timer_value(C, rep, "C12-L")
         R.t4_not_before(C, rep, "C12-L")
